@@ -83,7 +83,10 @@ type World struct {
 	Pending []peer.TorEvent
 }
 
-type Caps struct{ Fast, Extended, DHT bool }
+type Caps struct {
+	Fast, Extended, DHT bool
+	AddrClass           string // "" (global IPv4) | loopback | link-local | private | port-0 | v6
+}
 
 // NewWorld prepares t for a harness-played loop.
 func NewWorld(t *tor.Torrent) *World {
@@ -113,6 +116,18 @@ func (w *World) AddPeer(caps Caps, incoming bool) *PP {
 	id := make([]byte, 20)
 	copy(id, fmt.Sprintf("-VF0001-pumped%06d", n))
 	addr := netip.AddrPortFrom(netip.AddrFrom4([4]byte{8, 9, byte(n >> 8), byte(n)}), uint16(30000+n))
+	switch caps.AddrClass {
+	case "loopback":
+		addr = netip.AddrPortFrom(netip.AddrFrom4([4]byte{127, 0, 0, byte(n)}), uint16(30000+n))
+	case "link-local":
+		addr = netip.AddrPortFrom(netip.MustParseAddr(fmt.Sprintf("fe80::%x", n)), uint16(30000+n))
+	case "private":
+		addr = netip.AddrPortFrom(netip.AddrFrom4([4]byte{10, 1, byte(n >> 8), byte(n)}), uint16(30000+n))
+	case "port-0":
+		addr = netip.AddrPortFrom(netip.AddrFrom4([4]byte{8, 9, byte(n >> 8), byte(n)}), 0)
+	case "v6":
+		addr = netip.AddrPortFrom(netip.MustParseAddr(fmt.Sprintf("2001:db8::%x", n)), uint16(30000+n))
+	}
 	res := protocol.HandshakeResult{Hash: w.T.Hash, Id: hash.Hash(id), Dht: caps.DHT, Fast: caps.Fast, Extended: caps.Extended}
 	p := peer.New("", a, addr, incoming, res)
 	p.Log.SetOutput(discard{})
@@ -323,6 +338,17 @@ func (pp *PP) Disconnect() {
 // Collect moves what peers have told the torrent into Pending (peer by peer,
 // each peer's events in order).
 func (w *World) Collect() {
+	// what goroutines started by the torrent's own handlers (piece verification)
+	// tell the torrent through its real mailbox
+	for {
+		select {
+		case e := <-w.T.Event:
+			w.Pending = append(w.Pending, e)
+			continue
+		default:
+		}
+		break
+	}
 	for _, pp := range w.Peers {
 		pp.mu.Lock()
 		for _, e := range peer.VerifTakeEvents(pp.P) {
@@ -394,8 +420,16 @@ func (w *World) Drain() string {
 		}
 		e := w.Pending[0]
 		w.Pending = w.Pending[1:]
-		if _, p := w.HandleTor(e); p != "" {
+		err, p := w.HandleTor(e)
+		if p != "" {
 			return p
+		}
+		if err != nil {
+			if _, bye := e.(peer.TorGoAway); !bye {
+				// Torrent.run returns on the first error of handleEvent: the torrent
+				// and all its peers are gone
+				return fmt.Sprintf("tor.handleEvent(%T) returned an error (%v): the torrent's loop ends, the whole torrent is lost", e, err)
+			}
 		}
 	}
 	return "event processing does not terminate"
